@@ -18,7 +18,18 @@ PROBES = ['evicted_from_another_resource_while_holding', 'user_process_ended_hol
 
 
 def gen(rng, tier):
-    return gen_resource_case(rng, tier)
+    case = gen_resource_case(rng, tier)
+    if rng.random() < 1 / 250:
+        # a crowd: several hundred requests waiting at once, many of them with equal rank (same priority, same instant,
+        # same preempt flag): they are served in arrival order however long the queue
+        n = rng.randint(560, 700)
+        crowd = [{'id': 'x%d' % j, 'ops': [{'op': 'use', 'prio': rng.choice([0, 0, 1]), 'preempt': False, 'patience': None,
+                                            'hold': 0.25, 'style': 'manual', 'extra': [], 'on_intr': 'leave',
+                                            'exit_exc': False}]} for j in range(n)]
+        case['procs'] = case['procs'] + crowd
+        case['order'] = case['order'] + [c['id'] for c in crowd]
+        case['crowd'] = True
+    return case
 
 
 def check(w):
